@@ -8,6 +8,8 @@ independent SI table and the constants scipp exposes.
 
 from __future__ import annotations
 
+import enum
+
 import numpy as np
 import scipp as sc
 
@@ -24,7 +26,16 @@ RULE = (
     'non-nested dims: every operand on a dim of its own, 2-d operands that pairwise share one dim, 2-d bins with '
     'Ltotal and two_theta along different bin dims, bins broadcast along geometry dims, random subsets of 4 '
     'dims; each forced once per kernel and shard, with the alternative route on the same operands; in situ: '
-    'Ltotal[setting] x two_theta[pixel] coordinates, dense and binned) and forced angle classes; a case is '
+    'Ltotal[setting] x two_theta[pixel] coordinates, dense and binned) and forced angle classes; once per kernel '
+    'and shard also: the data operand (and Ltotal) carrying variances in the scalar / per-pixel / own-axis / 2-d / '
+    'event layouts (values judged as always; double-precision variances against first-order propagation of the '
+    'power laws; inputs scipp itself refuses -- broadcast of an operand with variances, sin of one -- counted), '
+    'dims named like operands / internal names, a DataArray with a mask as the data operand, keywords in any '
+    'order, second use (same objects again, after display/copy, after a caught exception, result fed back), the '
+    'kernel as a node of a caller-built transform_coords graph (graph displayed / deep-copied / pickled); in situ '
+    'once per shard: masks (pixel, x, bin, event level), tof coordinates with variances, pixel dim named '
+    'x / event / row, names as numpy.str_ / (str, Enum) and scatter as numpy.bool_; one shard with the heavy cases '
+    '(2**20+7 elements, 3 x 400001, 2**20+7 events; convert() of 2**18 events); a case is '
     'non-trivial unless scalar+SI+float64; distinct = distinct (kernel, dtypes, units, '
     'shape class, magnitude band) signatures'
 )
@@ -105,12 +116,80 @@ def out_unit(kernel, args):
     return sc.Unit('angstrom')
 
 
+# exponent of every power-law operand in the definitions above (two_theta enters through sin: no power law)
+POWER = {
+    'wavelength_from_tof': {'tof': 1, 'Ltotal': -1},
+    'dspacing_from_tof': {'tof': 1, 'Ltotal': -1},
+    'energy_from_tof': {'tof': -2, 'Ltotal': 2},
+    'energy_from_wavelength': {'wavelength': -2},
+    'wavelength_from_energy': {'energy': -0.5},
+    'Q_from_wavelength': {'wavelength': -1},
+    'wavelength_from_Q': {'Q': -1},
+    'dspacing_from_wavelength': {'wavelength': 1},
+    'dspacing_from_energy': {'energy': -0.5},
+}
+
+
+def _unwrap(v):
+    """A DataArray passed where a Variable is documented stands in for its data."""
+    return v.data if isinstance(v, sc.DataArray) else v
+
+
+def _has_var(v):
+    if ops.is_binned(v):
+        return v.bins.constituents['data'].variances is not None
+    return isinstance(v, sc.Variable) and v.variances is not None
+
+
+def _var_as_values(v):
+    """The variances of ``v`` as the values of a variable of the same layout (container work only)."""
+    if ops.is_binned(v):
+        c = v.bins.constituents
+        d = c['data']
+        return sc.bins(begin=c['begin'], end=c['end'], dim=c['dim'],
+                       data=sc.array(dims=d.dims, values=np.asarray(d.variances), unit=None))
+    if v.ndim == 0:
+        return sc.scalar(float(v.variance), unit=None)
+    return sc.array(dims=v.dims, values=np.asarray(v.variances), unit=None)
+
+
+def _plain(v):
+    return sc.values(v) if _has_var(v) else v
+
+
+def _scipp_refuses_variances(names, args, withvar):
+    """scipp itself (the container library) refuses two uses of variances, whatever the kernel does: an operand
+    with variances that would have to be broadcast (correlations), and sin() of a value with variances."""
+    if 'two_theta' in withvar:
+        return 'sin of an angle with variances'
+    union = ops.union_dims(*[args[n] for n in names])
+    if any(set(args[n].dims) != union for n in withvar):
+        return 'broadcast of an operand with variances'
+    return None
+
+
 def judge_kernel(ctx, kernel, args, res, exc, origin):
     """Compare one observed kernel return with the long-double definition."""
     names = OPERANDS[kernel]
+    if any(isinstance(args[n], sc.DataArray) for n in names):
+        ctx.event('DataArray operand')
+    args = {n: _unwrap(args[n]) for n in names}
+    res = _unwrap(res)
     case = {'kernel': kernel, 'origin': origin,
             'args': {n: _descr(args[n]) for n in names}}
+    try:
+        withvar = [n for n in names if _has_var(args[n])]
+        refusal = _scipp_refuses_variances(names, args, withvar) if withvar else None
+    except Exception:  # noqa: BLE001
+        ctx.oracle_error(f'C01 {kernel} variances')
+        return
+    if withvar:
+        case['variances'] = withvar
     if exc is not None:
+        if refusal and isinstance(exc, sc.VariancesError):
+            ctx.count('refused by scipp (VariancesError): ' + refusal)
+            ctx.event('variances.refusal')
+            return
         ctx.violation('kernel_raised', f'{kernel} raised {type(exc).__name__}: {exc}', case,
                       kernel=kernel)
         return
@@ -122,12 +201,13 @@ def judge_kernel(ctx, kernel, args, res, exc, origin):
         ok = ops.is_binned(res) and set(res.dims) == want_dims
         if ok:
             try:
+                pdata = _plain(data)
                 if res.dims == data.dims:
-                    like = data
+                    like = pdata
                 elif set(res.dims) == set(data.dims):
-                    like = data.transpose(res.dims)
+                    like = pdata.transpose(res.dims)
                 else:
-                    like = sc.broadcast(data, dims=res.dims, shape=res.shape)
+                    like = sc.broadcast(pdata, dims=res.dims, shape=res.shape)
                 want_sizes = ops.bin_sizes(like)
             except Exception:  # noqa: BLE001
                 ctx.oracle_error(f'C01 {kernel} bin layout')
@@ -148,7 +228,8 @@ def judge_kernel(ctx, kernel, args, res, exc, origin):
         any32 = cls32
         tol = TOL32 if any32 else TOL64
         want_dtype = sc.DType.float32 if cls32 else sc.DType.float64
-        a_si = {n: ops.align(args[n], res).astype(si.LD) * si.factor(ops.elem_unit(args[n]))
+        pres = _plain(res)
+        a_si = {n: ops.align(_plain(args[n]), pres).astype(si.LD) * si.factor(ops.elem_unit(args[n]))
                 for n in names}
         exp, _ = expected_si(kernel, a_si)
         ou = out_unit(kernel, args)
@@ -169,28 +250,28 @@ def judge_kernel(ctx, kernel, args, res, exc, origin):
         ctx.violation('wrong_dims', f'{kernel}: dims {res.dims} expected {sorted(want_dims)}', case,
                       kernel=kernel)
         return
-    got = ops.result_values(res)
+    got = np.ravel(ops.result_values(res))
+    exp_out = np.ravel(exp_out)
     # elements whose inputs are not finite (dead pixels) are not judged; they must not affect the others
-    valid = np.ones(np.shape(got), dtype=bool)
+    sel = np.ones(got.shape, dtype=bool)
     for n in names:
-        valid &= np.isfinite(np.asarray(a_si[n], dtype=np.float64))
-    if not np.all(valid):
-        ctx.count('elements with non-finite inputs (not judged)', int(valid.size - np.count_nonzero(valid)))
-        if not np.any(valid):
+        sel &= np.ravel(np.isfinite(np.asarray(a_si[n], dtype=np.float64)))
+    if not np.all(sel):
+        ctx.count('elements with non-finite inputs (not judged)', int(sel.size - np.count_nonzero(sel)))
+        if not np.any(sel):
             return
-        got = np.asarray(got)[valid]
-        exp_out = exp_out[valid]
     if cls32:
         # out of the float32 domain (reference not a normal float32): not judged
         fin = np.isfinite(exp_out.astype(np.float64))
         lo, hi = 1e-30, 1e30
         dom = fin & (np.abs(exp_out) > lo) & (np.abs(exp_out) < hi)
-        if not np.all(dom):
-            ctx.count('out_of_float32_domain', int(np.size(dom) - np.count_nonzero(dom)))
-        if not np.any(dom):
+        if not np.all(dom | ~sel):
+            ctx.count('out_of_float32_domain', int(np.count_nonzero(sel & ~dom)))
+        sel &= dom
+        if not np.any(sel):
             return
-        got = np.asarray(got)[dom] if np.ndim(got) else got
-        exp_out = exp_out[dom] if np.ndim(exp_out) else exp_out
+    exp_all = exp_out
+    got, exp_out = got[sel], exp_out[sel]
     if got.size == 0:
         ctx.count('empty_results')
         return
@@ -208,6 +289,57 @@ def judge_kernel(ctx, kernel, args, res, exc, origin):
                          'relerr': worst}
         ctx.violation('value', f'{kernel}: relative error {worst:.3g} > {tol:g}', case,
                       kernel=kernel, precision='float32' if any32 else 'float64')
+        return
+    if withvar:
+        judge_variances(ctx, kernel, names, args, res, withvar, refusal, exp_all, sel, cls32, case)
+
+
+def judge_variances(ctx, kernel, names, args, res, withvar, refusal, exp_all, sel, cls32, case):
+    """Uncertainties: an operand with variances gives a result with variances, and where scipp's arithmetic defines
+    the propagation unambiguously (uncorrelated power-law operands, nothing broadcast, double precision) they are
+    the first-order ones: var(y)/y^2 = sum p_n^2 var(x_n)/x_n^2 with p_n the exponent of x_n in the definition."""
+    if not _has_var(res):
+        ctx.violation('variances', f'{kernel}: operand(s) {withvar} carry variances, the result has none', case,
+                      kernel=kernel, mechanism='lost')
+        return
+    ctx.event('variances.' + kernel)
+    if refusal:
+        ctx.count('variances present, propagation not defined by scipp alone (not judged): ' + refusal)
+        return
+    if cls32 or any(ops.elem_dtype(args[n]) == sc.DType.float32 for n in withvar):
+        # single precision (of the result or of an operand with variances): squares of intermediate values may
+        # leave the float32 range and scipp defines no precision class for variances; presence only
+        ctx.count('float32 variances: presence only')
+        return
+    try:
+        pres = _plain(res)
+        rel = si.LD(0)
+        for n in withvar:
+            x = np.ravel(ops.align(_plain(args[n]), pres)).astype(si.LD)
+            vx = np.ravel(ops.align(_var_as_values(args[n]), pres)).astype(si.LD)
+            sel = sel & np.isfinite(vx.astype(np.float64))
+            with np.errstate(all='ignore'):
+                rel = rel + si.LD(POWER[kernel][n]) ** 2 * vx / (x * x)
+        exp_v = (exp_all * exp_all * rel)[sel]
+        got_v = np.ravel(ops.result_values(_var_as_values(res)))[sel]
+    except Exception:  # noqa: BLE001
+        ctx.oracle_error(f'C01 {kernel} variances')
+        return
+    if got_v.size == 0:
+        return
+    pos = exp_v > 0
+    bad0 = (~pos) & (got_v != 0)
+    err = si.relerr(got_v[pos], exp_v[pos]) if np.any(pos) else np.zeros(0)
+    worst = float(np.max(err)) if err.size else 0.0
+    ctx.dev('variance relerr64.' + kernel, worst)
+    ctx.event('variances.judged')
+    tol = 4 * TOL64
+    if worst > tol or np.any(bad0) or not np.all(np.isfinite(got_v.astype(np.float64))):
+        i = int(np.argmax(err)) if err.size else 0
+        case['worst_variance'] = {'got': repr(got_v[pos][i]) if err.size else None,
+                                  'expected': repr(exp_v[pos][i]) if err.size else None, 'relerr': worst}
+        ctx.violation('variances', f'{kernel}: variance differs from first-order propagation by {worst:.3g} > {tol:g}',
+                      case, kernel=kernel, mechanism='value')
 
 
 def _descr(v):
@@ -251,9 +383,34 @@ def _as_unit(x_si, unit):
 #   binned_outer  bins broadcast along the geometry dims       (x[pixel] binned, Ltotal[setting], two_theta[tube])
 #   free          every operand on a random subset of the dims (tube, pixel, setting, tof) in random order
 OUTER_SHAPES = ['outer_1d', 'outer_2d', 'binned_2d', 'binned_outer', 'free']
-SHAPES = ['scalar', '1d', '2d_broadcast', 'per_pixel_2d', 'binned', 'transposed_2d'] + OUTER_SHAPES
+SHAPES = ['scalar', '1d', '2d_broadcast', 'per_pixel_2d', 'per_pixel_1d', 'binned', 'transposed_2d'] + OUTER_SHAPES
 POOL = ('tube', 'pixel', 'setting', 'tof')
-FORCED_ROUNDS = ['slice', 'uniform', 'outer_1d', 'outer_2d', 'binned_2d', 'binned_outer']
+# operand classes every kernel sees once per shard (beyond the layouts): which shape class, which operands carry
+# variances ('data', 'Ltotal', 'two_theta'), dims renamed, data operand wrapped into a DataArray with a mask
+#   var_*            the data operand carries VARIANCES: all scalars / one value per pixel next to per-pixel geometry /
+#                    an axis of its own next to scalar or same-axis geometry / 2-d per pixel / events with variances
+#   var_geometry     data and Ltotal both carry variances (uncorrelated, same dims)
+#   var_refused_*    inputs scipp itself refuses (broadcast of an operand with variances, sin of one): counted
+#   names            dims named like the operands / like names used inside scipp(neutron) ('event', 'x', 'row', ...)
+#   dataarray        a DataArray (with a mask) stands in for the data Variable
+#   graphnode        (auxiliary: used by graph_node) layouts that fit into one DataArray
+CLASS_ROUNDS = {
+    'var_scalar': {'shape': ['scalar'], 'var': ('data',)},
+    'var_per_pixel': {'shape': ['per_pixel_1d'], 'var': ('data',)},
+    'var_axis': {'shape': ['1d'], 'var': ('data',)},
+    'var_2d': {'shape': ['per_pixel_2d'], 'var': ('data',)},
+    'var_binned': {'shape': ['binned'], 'var': ('data',)},
+    'var_geometry': {'shape': ['per_pixel_1d', 'scalar'], 'var': ('data', 'Ltotal')},
+    'var_refused_broadcast': {'shape': ['2d_broadcast'], 'var': ('data',)},
+    'var_refused_angle': {'shape': ['per_pixel_1d'], 'var': ('two_theta',)},
+    'names': {'shape': ['binned', 'per_pixel_2d', 'outer_1d', 'binned_2d', 'free'], 'rename': True},
+    'dataarray': {'shape': ['1d', '2d_broadcast', 'per_pixel_2d', 'per_pixel_1d', 'transposed_2d'], 'wrap': True},
+    'graphnode': {'shape': ['per_pixel_2d', 'binned', 'per_pixel_1d', '1d'], 'aux': True},
+}
+FORCED_ROUNDS = ['slice', 'uniform', 'outer_1d', 'outer_2d', 'binned_2d', 'binned_outer',
+                 *[c for c, v in CLASS_ROUNDS.items() if not v.get('aux')]]
+HOSTILE_DIMS = ['event', 'x', 'row', 'Ltotal', 'two_theta', 'tof', 'vertex', 'range', 'rotation',
+                '6f2d7c1e-1b0a-4c59-9a57-3f0e8d2b4a11']
 
 
 def _layout(rng, shape_cls, names, npix, nt):
@@ -299,6 +456,23 @@ def _mk(values, dims, unit, dtype):
     return sc.array(dims=dims, values=values, unit=unit, dtype=dtype)
 
 
+def _add_variances(v, rng):
+    """The same values with variances: relative standard deviations 1e-6..1e-1 (x 0.7..1.4 per element)."""
+    rel = 10.0 ** rng.uniform(-6, -1)
+    if ops.is_binned(v):
+        c = v.bins.constituents
+        d = c['data']
+        vals = np.asarray(d.values)
+        var = ((rel * vals.astype(np.float64)) ** 2 * rng.uniform(0.5, 2, size=vals.shape)).astype(vals.dtype)
+        data = sc.array(dims=d.dims, values=vals, variances=var, unit=d.unit, dtype=d.dtype)
+        return sc.bins(begin=c['begin'], end=c['end'], dim=c['dim'], data=data)
+    vals = np.asarray(v.values)
+    var = ((rel * vals.astype(np.float64)) ** 2 * rng.uniform(0.5, 2, size=vals.shape)).astype(vals.dtype)
+    if v.ndim == 0:
+        return sc.scalar(vals.item(), variance=var.item(), unit=v.unit, dtype=v.dtype)
+    return sc.array(dims=v.dims, values=vals, variances=var, unit=v.unit, dtype=v.dtype)
+
+
 def gen_case(rng, ctx, kernel=None, force=None):
     """One direct kernel call: dict(kernel, kwargs, signature, trivial)."""
     kernel = kernel or list(OPERANDS)[rng.integers(0, len(OPERANDS))]
@@ -306,7 +480,16 @@ def gen_case(rng, ctx, kernel=None, force=None):
     slice_of_binned = None
     shape_cls = SHAPES[rng.integers(0, len(SHAPES))]
     npix, nt = int(rng.integers(1, 7)), int(rng.integers(1, 40))
-    if force in ('slice', 'uniform'):
+    spec = CLASS_ROUNDS.get(force, {})
+    with_var = set(spec.get('var', ()))
+    if with_var == {'two_theta'} and 'two_theta' not in names:
+        with_var = {'data'}
+    if not force and rng.random() < 0.08:
+        with_var = {'data'}  # anywhere: includes the inputs scipp refuses
+    if spec:
+        shape_cls = spec['shape'][rng.integers(0, len(spec['shape']))]
+        npix, nt = int(rng.integers(2, 7)), int(rng.integers(2, 12))
+    elif force in ('slice', 'uniform'):
         # deterministic part of every shard: each kernel sees binned data that is a slice of a larger binned
         # variable, and binned data with nearly uniform per-pixel geometry
         shape_cls, npix = 'binned', int(rng.integers(3, 7))
@@ -319,6 +502,8 @@ def gen_case(rng, ctx, kernel=None, force=None):
     data_name = names[0]
     r = rng.random()
     cls = 'float32' if r < 0.3 else ('int64' if r < 0.4 else 'float64')
+    if cls == 'int64' and 'data' in with_var:
+        cls = 'float64'  # only floating-point variables can carry variances
     kw, units, dtypes = {}, [], []
     mags = []
     for n in names:
@@ -359,6 +544,8 @@ def gen_case(rng, ctx, kernel=None, force=None):
         else:
             rr = rng.random()
             dt = 'float32' if rr < 0.15 else ('int64' if rr < 0.27 else 'float64')
+            if dt == 'int64' and n in with_var:
+                dt = 'float64'
             if dt == 'int64':
                 ctx.hit('integer geometry operand')
         # magnitudes
@@ -439,11 +626,41 @@ def gen_case(rng, ctx, kernel=None, force=None):
         if (not is_data and slice_of_binned is not None and isinstance(var, sc.Variable) and 'pixel' in var.dims
                 and var.sizes['pixel'] != kw[data_name].sizes['pixel']):
             var = var['pixel', slice_of_binned[0]:slice_of_binned[1]].copy()
+        if n in with_var or (is_data and 'data' in with_var):
+            var = _add_variances(var, rng)
+            ctx.hit('variances on ' + ('the data operand' if is_data else n))
         kw[n] = var
         units.append(unit)
         dtypes.append(dt)
-    trivial = shape_cls == 'scalar' and all(d == 'float64' for d in dtypes) and all(
+    trivial = shape_cls == 'scalar' and all(d == 'float64' for d in dtypes) and not with_var and all(
         u in ('s', 'm', 'J', 'rad', '1/m') for u in units)
+    if with_var:
+        ctx.hit(f'variances: {force or "anywhere"}')
+    if spec.get('rename'):
+        # the kernels are dim-name agnostic: any names a caller may pick, also those of the operands themselves, of
+        # the event dim inside the bins, and names scipp / scippneutron use internally
+        pick = [HOSTILE_DIMS[i] for i in rng.permutation(len(HOSTILE_DIMS))[:len(POOL)]]
+        ren = dict(zip(POOL, pick, strict=True))
+        if ops.is_binned(kw[data_name]):
+            # an outer dim named like the event dim of the buffer
+            tgt = kw[data_name].dims[-1]
+            for d0 in POOL:
+                if ren[d0] == 'event':
+                    ren[d0] = ren[tgt]
+            ren[tgt] = 'event'
+            ctx.hit('outer bin dim named like the event dim inside the bins')
+        # (in two steps: a permutation of names cannot be renamed at once)
+        kw = {n: (v.rename_dims({d: '_tmp_' + d for d in v.dims}).rename_dims({'_tmp_' + d: ren[d] for d in v.dims})
+                  if v.dims else v) for n, v in kw.items()}
+        ctx.hit('dims named like operands / internal names')
+    if spec.get('wrap'):
+        v = kw[data_name]
+        m = rng.random(size=v.shape) < 0.4
+        kw[data_name] = sc.DataArray(v, masks={'bad': sc.array(dims=v.dims, values=m) if v.dims else sc.scalar(bool(m))})
+        ctx.hit('DataArray with a mask as the data operand')
+    if rng.random() < 0.5 and len(kw) > 1:
+        kw = dict(reversed(list(kw.items())))  # keyword-only parameters: any order
+        ctx.hit('keywords in another order than the signature')
     # relation between the dims of the operands (whatever class produced them)
     od = {n: tuple(kw[n].dims) for n in names}
     crossed = any(_non_nested(od[a], od[b]) for i, a in enumerate(names) for b in names[i + 1:])
@@ -458,7 +675,9 @@ def gen_case(rng, ctx, kernel=None, force=None):
             ctx.hit('bins broadcast along a dim of a geometry operand')
     if shape_cls in OUTER_SHAPES:
         ctx.hit('layout ' + shape_cls)
-    sig = (kernel, tuple(dtypes), tuple(units), shape_cls + ('/crossed' if crossed else ''), tuple(mags[:1]))
+    sig = (kernel, tuple(dtypes), tuple(units), shape_cls + ('/crossed' if crossed else '')
+           + ('/var:' + '+'.join(sorted(with_var)) if with_var else '') + ('/' + force if spec and not with_var else ''),
+           tuple(mags[:1]))
     return {'kernel': kernel, 'kw': kw, 'sig': sig, 'trivial': trivial, 'shape_cls': shape_cls}
 
 
@@ -473,7 +692,7 @@ def _xnorm(v):
 
 
 def _pair(ctx, name, a, b, tol, case):
-    a, b = _xnorm(a), _xnorm(b)
+    a, b = _xnorm(_plain(_unwrap(a))), _xnorm(_plain(_unwrap(b)))
     ea = ops.result_values(a).astype(si.LD)
     # the elements of b laid out like those of a (two routes need not return their dims in the same order; a
     # round trip returns the union of the dims of its operands)
@@ -542,7 +761,143 @@ def direct_routes(ctx, K, kernel, kw, res):
                           route='direct.Q*d')
 
 
-def routes_case(rng, ctx, scn, force=None):
+# ------------------------------------------------- second use, graph nodes ---
+def second_use(rng, ctx, K, kernel, origin):
+    """The same operand objects passed again; display / copy / comparison of operands and result between two
+    calls; the call repeated after an exception was raised and caught; the result fed back (other routes)."""
+    import copy
+
+    case = gen_case(rng, ctx, kernel)
+    f, kw = getattr(K, kernel), case['kw']
+    descr = {'second_use': kernel, 'args': {n: _descr(v) for n, v in kw.items()}}
+    pristine = {n: v.copy() for n, v in kw.items()}
+    try:
+        r1 = f(**kw)
+    except Exception:  # noqa: BLE001  (judged by the monitor)
+        return case
+    steps = []
+    try:
+        for v in [*kw.values(), r1]:
+            repr(v), str(v), v.sizes, v.copy(), copy.copy(v), copy.deepcopy(v)
+            if not ops.is_binned(v):
+                v == v  # noqa: B015
+            sc.identical(v, v, equal_nan=True)
+            if hasattr(v, '_repr_html_'):
+                v._repr_html_()
+    except Exception:  # noqa: BLE001
+        ctx.oracle_error('C01 second use: display/copy of operands')
+        return case
+    try:
+        steps.append(('the same objects again', f(**kw)))
+        steps.append(('copies taken before the first call', f(**pristine)))
+        # an invalid call in between (string-valued operand): whatever it raises is caught
+        origin['v'] = 'probe'
+        try:
+            f(**{**kw, OPERANDS[kernel][-1]: sc.array(dims=['pixel'], values=['a', 'b'])})
+            ctx.count('second use: the invalid call in between did not raise')
+        except Exception:  # noqa: BLE001
+            ctx.count('second use: exception raised and caught in between')
+        finally:
+            origin['v'] = 'direct'
+        steps.append(('after a caught exception', f(**kw)))
+    except Exception:  # noqa: BLE001  (a valid call that raised: judged by the monitor)
+        return case
+    ctx.hit('second use of the same operands')
+    for what, r in steps:
+        ctx.event('second_use')
+        if not sc.identical(r, r1, equal_nan=True):
+            ctx.violation('second_use', f'{kernel}: {what}: the result differs from the first call', descr,
+                          kernel=kernel)
+            break
+    mid = ctx.n_violations
+    try:
+        direct_routes(ctx, K, kernel, kw, r1)
+    except Exception:  # noqa: BLE001
+        if ctx.n_violations == mid:
+            ctx.oracle_error('C01 second use: routes')
+    return case
+
+
+def graph_node(rng, ctx, K, kernel, k, origin):
+    """The kernel as a node of a caller-built ``transform_coords`` graph: every parameter of the node is looked up
+    as a coordinate (a parameter that is not an operand breaks this use).  The graph is displayed, copied and
+    pickled before use."""
+    import copy
+    import pickle
+
+    case = gen_case(rng, ctx, kernel, force='graphnode')
+    kw = case['kw']
+    names = OPERANDS[kernel]
+    data = kw[names[0]]
+    target = kernel.split('_from_')[0]
+    geometry = {n: kw[n] for n in names[1:]}
+    if ops.is_binned(data):
+        c = data.bins.constituents
+        ev = sc.DataArray(sc.ones(dims=[c['dim']], shape=[c['data'].sizes[c['dim']]], unit='counts'),
+                          coords={names[0]: c['data']})
+        da = sc.DataArray(sc.bins(begin=c['begin'], end=c['end'], dim=c['dim'], data=ev), coords=geometry)
+    else:
+        da = sc.DataArray(sc.ones(dims=data.dims, shape=data.shape, unit='counts'), coords={names[0]: data, **geometry})
+    graph = {target: getattr(K, kernel)}
+    repr(graph), str(graph)
+    graph = [graph, copy.deepcopy(graph), pickle.loads(pickle.dumps(graph)), copy.copy(graph)][k % 4]
+    descr = {'graph_node': kernel, 'args': {n: _descr(v) for n, v in kw.items()}}
+    before, returned = ctx.n_violations, origin['returned']
+    try:
+        out = da.transform_coords(target, graph=graph)
+        got = out.bins.coords[target] if ops.is_binned(data) and target in out.bins.coords else out.coords[target]
+    except Exception as e:  # noqa: BLE001
+        if origin['returned'] > returned:
+            # the node was called and returned (judged by the monitor): scipp could not store what it returned
+            ctx.count('graph node: transform_coords failed after the kernel had returned (not judged)')
+        elif ctx.n_violations == before:  # not the kernel itself (the monitor has judged that)
+            ctx.violation('graph_node', f'{kernel} as a node of a transform_coords graph: {type(e).__name__}: {e}',
+                          descr, kernel=kernel)
+        return case
+    ctx.hit('kernel as a node of a caller-built graph')
+    ctx.event('graph_node')
+    try:
+        want = getattr(K, kernel)(**kw)
+        # transform_coords renames the dim of a dimension-coordinate and may flag the output as aligned: elements only
+        g, w = _xnorm(got), _xnorm(want)
+        same = (set(g.dims) == set(w.dims) and ops.elem_unit(g) == ops.elem_unit(w)
+                and ops.elem_dtype(g) == ops.elem_dtype(w)
+                and np.array_equal(ops.result_values(g), ops.align(w, g), equal_nan=True))
+    except Exception:  # noqa: BLE001
+        return case
+    if not same:
+        ctx.violation('graph_node', f'{kernel}: the coordinate computed through the graph differs from the direct call',
+                      descr, kernel=kernel)
+    return case
+
+
+class _QuantityName(str, enum.Enum):
+    """Names of the quantities as members of a ``(str, Enum)`` (a str wherever a str is documented)."""
+    tof = 'tof'
+    wavelength = 'wavelength'
+    energy = 'energy'
+    dspacing = 'dspacing'
+    Q = 'Q'
+
+
+# in-situ classes every shard drives once: (crossed, binned, extras)
+#   masks      per-pixel mask, mask along the x dim (dense), bin-level and event-level masks (binned)
+#   variances  the tof coordinate carries variances (dense: 2-d per pixel; binned: per event)
+#   pixel dim  named like the event dim inside the bins / like a name used internally
+#   names      origin / target / start given as numpy.str_ or (str, Enum) members, scatter as numpy.bool_
+ROUTE_ROUNDS = [
+    {'name': 'crossed_dense', 'crossed': True, 'binned': False},
+    {'name': 'crossed_binned', 'crossed': True, 'binned': True},
+    {'name': 'dense: masks, variances, dim x, numpy.str_', 'crossed': False, 'binned': False, 'masks': True,
+     'var': True, 'pixel_dim': 'x', 'names': 'numpy'},
+    {'name': 'binned: masks, variances, dim event, (str, Enum)', 'crossed': False, 'binned': True, 'masks': True,
+     'var': True, 'pixel_dim': 'event', 'names': 'enum'},
+    {'name': 'crossed binned: event variances, masks, dim row', 'crossed': True, 'binned': True, 'masks': True,
+     'var': True, 'pixel_dim': 'row', 'names': None},
+]
+
+
+def routes_case(rng, ctx, scn, force=None, size=None):
     """Drive all routes through the shipped graphs via convert().
 
     ``crossed``: Ltotal depends on a dim ``setting`` only and two_theta on ``pixel`` only (a bank on a sphere
@@ -552,14 +907,23 @@ def routes_case(rng, ctx, scn, force=None):
     f32 = rng.random() < 0.3
     binned = rng.random() < 0.35
     crossed = rng.random() < 0.25
+    masks, with_var = rng.random() < 0.15, rng.random() < 0.15
+    pixel_dim, names_as = 'pixel', None
     if force:
-        crossed, binned = True, force == 'crossed_binned'
+        crossed, binned = force['crossed'], force['binned']
+        masks, with_var = force.get('masks', False), force.get('var', False)
+        pixel_dim, names_as = force.get('pixel_dim', 'pixel'), force.get('names')
+    if size:
+        npix, nt = size
+    if with_var and crossed and not binned:
+        with_var = False  # scipp refuses to broadcast a coordinate with variances along the other geometry dim
     nset = int(rng.integers(2, 4)) if crossed else None
-    if crossed:
+    if crossed and not size:
         npix, nt = max(npix, 2), min(nt, 12)
     tunit = ['us', 'ms', 'ns', 's'][rng.integers(0, 2 if f32 else 4)]
     lunit = ['m', 'mm', 'cm', 'km'][rng.integers(0, 3 if f32 else 4)]
-    t_si = _draw_si(rng, npix * nt, 1e-6, 1e-1) if f32 else _draw_si(rng, npix * nt, 1e-7, 1e3)
+    n_t = nt if (size and binned) else npix * nt  # (events are drawn nt at a time)
+    t_si = _draw_si(rng, n_t, 1e-6, 1e-1) if f32 else _draw_si(rng, n_t, 1e-7, 1e3)
     l_si = _draw_si(rng, nset if crossed else npix, 0.1, 1e3)
     tt = _angles(rng, npix, ctx)
     if f32:
@@ -577,8 +941,12 @@ def routes_case(rng, ctx, scn, force=None):
             sizes[0] = 3
         nev = int(sizes.sum())
         tv = np.resize(_as_unit(t_si, tunit), nev).astype(dt)
-        ev = sc.DataArray(sc.ones(dims=['event'], shape=[nev], unit='counts'),
-                          coords={'tof': sc.array(dims=['event'], values=tv, unit=tunit, dtype=dt)})
+        tcoord = sc.array(dims=['event'], values=tv, unit=tunit, dtype=dt)
+        if with_var:
+            tcoord = _add_variances(tcoord, rng)
+        ev = sc.DataArray(sc.ones(dims=['event'], shape=[nev], unit='counts'), coords={'tof': tcoord})
+        if masks:
+            ev.masks['event_level'] = sc.array(dims=['event'], values=rng.random(size=nev) < 0.3)
         end = np.cumsum(sizes)
         da = sc.DataArray(sc.bins(begin=sc.array(dims=odims, values=(end - sizes).reshape(oshape), unit=None),
                                   end=sc.array(dims=odims, values=end.reshape(oshape), unit=None),
@@ -588,12 +956,35 @@ def routes_case(rng, ctx, scn, force=None):
     else:
         tof = sc.array(dims=['pixel', 'tof'], values=_as_unit(t_si, tunit).reshape(npix, nt),
                        unit=tunit, dtype=dt)
+        if with_var:
+            tof = _add_variances(tof, rng)
         da = sc.DataArray(sc.ones(dims=[*odims, 'tof'], shape=[*oshape, nt]),
                           coords={**coords, 'tof': tof})
+        if masks:
+            da.masks['along_x'] = sc.array(dims=['pixel', 'tof'], values=rng.random(size=(npix, nt)) < 0.3)
+    if masks:
+        da.masks['per_pixel'] = sc.array(dims=['pixel'], values=rng.random(size=npix) < 0.4)
+        if crossed:
+            da.masks['bin_level'] = sc.array(dims=odims, values=rng.random(size=oshape) < 0.3)
+        ctx.hit('convert: masks on the input, ' + ('bin-level and event-level' if binned else 'per pixel and along x'))
+    if with_var:
+        ctx.hit('convert: tof coordinate with variances, ' + ('events' if binned else 'dense'))
+    if pixel_dim != 'pixel':
+        da = da.rename_dims({'pixel': pixel_dim})
+        ctx.hit(f'convert: pixel dim named {pixel_dim!r}')
+    if names_as == 'numpy':
+        wrap, flag = np.str_, np.bool_
+        ctx.hit('convert / graph factories: names as numpy.str_, scatter as numpy.bool_')
+    elif names_as == 'enum':
+        wrap, flag = _QuantityName, np.bool_
+        ctx.hit('convert / graph factories: names as (str, Enum) members')
+    else:
+        wrap, flag = str, bool
     if crossed:
         ctx.hit('convert: Ltotal and two_theta coordinates on different dims, ' + ('binned' if binned else 'dense'))
     case = {'in_situ': 'routes', 'f32': f32, 'binned': binned, 'tunit': tunit, 'lunit': lunit,
-            'npix': npix, 'nt': nt, 'crossed_nset': nset}
+            'npix': npix, 'nt': nt, 'crossed_nset': nset, 'masks': masks, 'variances': with_var,
+            'pixel_dim': pixel_dim, 'names_as': names_as}
 
     def co(d, name):
         return d.bins.coords[name] if binned else d.coords[name]
@@ -611,7 +1002,7 @@ def routes_case(rng, ctx, scn, force=None):
         return d.drop_coords(drop) if drop else d
 
     def conv(d, origin, target, scatter):
-        out = scn.convert(only(d, origin), origin, target, scatter=scatter)
+        out = scn.convert(only(d, origin), wrap(origin), wrap(target), scatter=flag(scatter))
         ctx.count('convert_calls')
         return out
 
@@ -654,14 +1045,74 @@ def routes_case(rng, ctx, scn, force=None):
                                  ('elastic_dspacing', 'wavelength', 'dspacing'), ('elastic_Q', 'wavelength', 'Q'),
                                  ('elastic_energy', 'wavelength', 'energy'), ('elastic_dspacing', 'energy', 'dspacing')):
         src = {'tof': da, 'wavelength': lam, 'energy': e_direct}[start]
-        graph = {**GB.beamline(scatter=True), **getattr(GT, fname)(start)}
+        graph = {**GB.beamline(scatter=flag(True)), **getattr(GT, fname)(wrap(start))}
         out = only(src, start).transform_coords(target, graph=graph)
         ctx.count('factory_graph_calls')
         want = ref[target]
         if start != 'tof':
             want = conv(src, start, target, scatter=True)
         _pair(ctx, f'graph.{fname}({start})->{target} vs convert', co(out, target), co(want, target), tol, case)
-    return ('routes', dt, tunit, lunit, ('binned' if binned else 'dense') + ('/crossed' if crossed else ''))
+    return ('routes', dt, tunit, lunit, ('binned' if binned else 'dense') + ('/crossed' if crossed else '')
+            + ('/masks' if masks else '') + ('/var' if with_var else '')
+            + (f'/{pixel_dim}' if pixel_dim != 'pixel' else '') + (f'/{names_as}' if names_as else ''))
+
+
+# -------------------------------------------------------------- heavy cases ---
+# sizes beyond the thresholds at which scipp splits work between threads / chunks, and not a multiple of anything
+HEAVY_N = 2**20 + 7
+HEAVY_2D = (3, 400001)
+
+
+def heavy_cases(rng, ctx, K, scn, origin, turn):
+    """Large cases per kernel: 1-d of 2**20+7 elements next to scalar geometry for every kernel, and 3 x 400001 per
+    pixel / 2**20+7 events in ~1000 bins taking turns over the kernels (both for the first kernel); one large
+    binned convert() pipeline.  Moderate magnitudes (float32 domain)."""
+    def draw(n, name):
+        lo, hi = {'tof': (1e-6, 1e-1), 'Ltotal': (0.1, 1e3), 'wavelength': (1e-12, 1e-8), 'energy': (1.6e-26, 1.6e-18),
+                  'Q': (1e8, 1e12)}[name]
+        return _draw_si(rng, n, lo, hi)
+
+    unit = {'tof': 'us', 'Ltotal': 'm', 'wavelength': 'angstrom', 'energy': 'meV', 'Q': '1/angstrom', 'two_theta': 'rad'}
+    for k, kernel in enumerate(OPERANDS):
+        names = OPERANDS[kernel]
+        layouts = ('1d', 'per_pixel_2d', 'binned')
+        for layout in (layouts if k == 0 else (layouts[0], layouts[1 + (k + turn) % 2])):
+            dt = 'float32' if k and (k + turn) % 4 == 0 else 'float64'
+            kw = {}
+            nbin = 1000
+            for n in names:
+                is_data = n == names[0]
+                if layout == '1d':
+                    dims, shape = (['x'], (HEAVY_N,)) if is_data else ([], ())
+                elif layout == 'per_pixel_2d':
+                    dims, shape = (['pixel', 'tof'], HEAVY_2D) if is_data else (['pixel'], HEAVY_2D[:1])
+                else:
+                    dims, shape = ['pixel'], (nbin,)
+                n_el = HEAVY_N if (is_data and layout == 'binned') else (int(np.prod(shape)) if shape else 1)
+                v = rng.uniform(1e-3, np.pi, size=n_el) if n == 'two_theta' else _as_unit(draw(n_el, n), unit[n])
+                if is_data and layout == 'binned':
+                    cuts = np.sort(rng.integers(0, HEAVY_N + 1, size=nbin - 1))
+                    sizes = np.diff(np.concatenate([[0], cuts, [HEAVY_N]]))
+                    kw[n] = ops.make_binned(v.astype(dt), sizes, dims, shape, unit[n], dtype=dt)
+                else:
+                    kw[n] = _mk(v.reshape(shape) if shape else v, dims, unit[n], dt if is_data else 'float64')
+            try:
+                getattr(K, kernel)(**kw)
+            except Exception:  # noqa: BLE001  (judged by the monitor)
+                pass
+            ctx.hit(f'heavy: {layout}')
+            ctx.event('heavy')
+            ctx.case((kernel, 'heavy', layout, dt))
+    origin['v'] = 'convert'
+    try:
+        sig = routes_case(rng, ctx, scn, force={'name': 'heavy', 'crossed': False, 'binned': True, 'masks': True},
+                          size=(1000, HEAVY_N // 4 + 5))
+        ctx.hit('heavy: convert pipeline')
+        if sig:
+            ctx.case((*sig, 'heavy'))
+    except Exception as e:  # noqa: BLE001
+        ctx.violation('convert_raised', f'convert raised {type(e).__name__}: {e}', {'in_situ': 'routes', 'heavy': True})
+    origin['v'] = 'direct'
 
 
 # ------------------------------------------------------------------ driver ---
@@ -670,16 +1121,19 @@ DIRECT_ROUTES = ['direct.tof->d vs tof->lambda->d', 'direct.tof->d vs tof->E->d'
                  'direct.lambda->Q->lambda', 'direct.Q->lambda->Q', 'direct.E->d vs E->lambda->d',
                  'direct.Q*d=2pi']
 def plan(tier, seed):
-    n_shards = 16
-    calls = 300 if tier == 'quick' else 8000
-    routes = 40 if tier == 'quick' else 1000
-    return [{'calls': calls, 'routes': routes} for _ in range(n_shards)]
+    if tier == 'quick':
+        # 13 shards + the heavy cases on a shard of their own: one wave together with the two environment variants
+        return [{'calls': 350, 'routes': 45} for _ in range(13)] + [{'calls': 0, 'routes': 0, 'heavy': True}]
+    return [{'calls': 8000, 'routes': 1000, 'heavy': i == 15} for i in range(16)]
 
 
 def requirements(tier):
     ev = {k: 20 for k in OPERANDS}
     ev.update({'route.Q*d=2pi': 20, 'route.lambda->E->lambda': 20})
     ev.update({'route.' + r: 16 for r in DIRECT_ROUTES})
+    ev.update({'variances.' + k: 20 for k in OPERANDS})
+    ev.update({'variances.judged': 100, 'variances.refusal': 20, 'second_use': 50, 'graph_node': 50,
+               'DataArray operand': 50, 'heavy': 19})
     return {'events': ev,
             'forced': ['two_theta<1e-9', 'two_theta within 1e-12 of pi', 'two_theta == pi',
                        'integer geometry operand', 'binned operand is a slice of a larger one',
@@ -689,6 +1143,18 @@ def requirements(tier):
                        '2-d bins', 'bins broadcast along a dim of a geometry operand',
                        'convert: Ltotal and two_theta coordinates on different dims, dense',
                        'convert: Ltotal and two_theta coordinates on different dims, binned']
+            + ['variances: ' + c for c, v in CLASS_ROUNDS.items() if v.get('var')]
+            + ['variances on the data operand', 'variances on Ltotal', 'variances on two_theta',
+               'dims named like operands / internal names', 'outer bin dim named like the event dim inside the bins',
+               'DataArray with a mask as the data operand', 'keywords in another order than the signature',
+               'second use of the same operands', 'kernel as a node of a caller-built graph',
+               'convert: masks on the input, bin-level and event-level',
+               'convert: masks on the input, per pixel and along x',
+               'convert: tof coordinate with variances, events', 'convert: tof coordinate with variances, dense',
+               "convert: pixel dim named 'x'", "convert: pixel dim named 'event'", "convert: pixel dim named 'row'",
+               'convert / graph factories: names as numpy.str_, scatter as numpy.bool_',
+               'convert / graph factories: names as (str, Enum) members',
+               'heavy: 1d', 'heavy: per_pixel_2d', 'heavy: binned', 'heavy: convert pipeline']
             + ['layout ' + c for c in OUTER_SHAPES]
             + ['angle unit ' + u for u in sorted(set(ANG_UNITS))]}
 
@@ -703,16 +1169,22 @@ def run(shard, ctx):
         return
     rng = np.random.Generator(np.random.PCG64([shard['seed'], shard['index'], 1]))
     tr = Tracer()
-    origin = {'v': 'direct'}
+    origin = {'v': 'direct', 'returned': 0}
 
     def mk(kernel):
         def on_return(ev):
+            origin['returned'] += ev.exc is None
+            if origin['v'] == 'probe':  # an invalid call made on purpose (second_use)
+                ctx.count('probe calls with an invalid operand (not judged)')
+                return
             judge_kernel(ctx, kernel, ev.args, ev.result, ev.exc, origin['v'])
         return on_return
 
     for k in OPERANDS:
         tr.watch(getattr(K, k), k, on_return=mk(k))
     with tr:
+        if shard.get('heavy'):
+            heavy_cases(rng, ctx, K, scn, origin, shard['seed'])
         # every kernel first, then random
         kernels = list(OPERANDS)
         for i in range(shard['calls']):
@@ -739,10 +1211,15 @@ def run(shard, ctx):
             if i < 2 or ctx.n_violations > before:
                 ctx.sample({'kernel': case['kernel'], 'sig': case['sig'],
                             'args': {n: _descr(v) for n, v in case['kw'].items()}})
+        if shard['calls']:
+            for k, kernel in enumerate(kernels):
+                for case in (second_use(rng, ctx, K, kernel, origin),
+                             graph_node(rng, ctx, K, kernel, k + shard['index'], origin)):
+                    ctx.case(case['sig'], trivial=case['trivial'])
         origin['v'] = 'convert'
         for j in range(shard['routes']):
             try:
-                sig = routes_case(rng, ctx, scn, force={0: 'crossed_dense', 1: 'crossed_binned'}.get(j))
+                sig = routes_case(rng, ctx, scn, force=ROUTE_ROUNDS[j] if j < len(ROUTE_ROUNDS) else None)
             except Exception as e:  # noqa: BLE001
                 ctx.violation('convert_raised', f'convert raised {type(e).__name__}: {e}',
                               {'in_situ': 'routes'})
